@@ -15,7 +15,10 @@ All dense data live in the *stored* local basis of the sites (tenpy sorts charge
 state `perm[j]` of the conserve=None basis); the std-basis tables below are written from the site docs and are
 cross-checked against the sites at the start of each run.
 """
-import numpy as np
+import os
+for _v in ('OMP_NUM_THREADS', 'OPENBLAS_NUM_THREADS', 'MKL_NUM_THREADS'):
+    os.environ.setdefault(_v, '1')
+import numpy as np  # noqa: E402
 
 HALF = {'A': (2, 0), 'B': (0, 2), 'C': (1, 1), 'G': (0, 0), 'Th': (2, 2)}     # exponents in units of 1/2
 FORM_OF = {v: k for k, v in HALF.items()}
@@ -380,6 +383,9 @@ def gen_sites(rng, L, maxdim=None, family=None, hetero=None, fermionic=None):
         if maxdim is None or dim <= maxdim:
             return kinds
     small = min(pool, key=lambda k: std_table(k)[0])
+    d = std_table(small)[0]
+    while L > 1 and d ** L > maxdim:      # the family has only large sites: use a shorter chain
+        L -= 1
     return [small] * L
 
 
@@ -461,12 +467,12 @@ def gen_finite_build(rng, kinds, allow=None):
     return b
 
 
-def sector_vector(rng, S, sub, k=None, cplx=False):
+def sector_vector(rng, S, sub, k=None, cplx=False, Q=None):
     """random vector with definite total charge on the sites `sub` of S (tensor of shape dims)"""
     dims = [S.dims[i] for i in sub]
     tot = S.total_charge(sub)
     pick = tuple(int(rng.integers(d)) for d in dims)
-    Q = tot[pick]
+    Q = tot[pick] if Q is None else np.array(S.valid(Q), dtype=int)
     mask = np.all(tot == Q, axis=-1) if S.mod else np.ones(dims, dtype=bool)
     v = rnd(rng, dims, cplx) * mask
     if k is not None:
@@ -487,21 +493,24 @@ def charge_conserving_mask(S, sub):
 
 
 def random_gate(rng, S, sub, cplx, unitary=True):
-    """random charge-conserving operator on the sites `sub` (kron order), unitary if requested"""
+    """random charge-conserving operator on the sites `sub` (kron order), built block by block (one block per
+    total charge); unitary (Q factor of a random block) if requested, else a generic invertible block"""
     D = int(np.prod([S.dims[i] for i in sub]))
-    mask = charge_conserving_mask(S, sub)
-    H = rnd(rng, (D, D), cplx) * mask
-    if not unitary:
-        return H + 0.7 * np.eye(D)
-    H = H + H.conj().T
-    if cplx:
-        w, v = np.linalg.eigh(H)
-        return (v * np.exp(1j * w)) @ v.conj().T
-    # real orthogonal: exp of antisymmetric block-diagonal matrix
-    A = rnd(rng, (D, D), False) * mask
-    A = A - A.T
-    w, v = np.linalg.eig(A)
-    return np.real((v * np.exp(w)) @ np.linalg.inv(v))
+    if S.mod:
+        tot = S.total_charge(sub).reshape(D, len(S.mod))
+        keys = [tuple(t) for t in tot]
+    else:
+        keys = [()] * D
+    out = np.zeros((D, D), dtype=complex if cplx else float)
+    for key in sorted(set(keys)):
+        idx = [j for j in range(D) if keys[j] == key]
+        blk = rnd(rng, (len(idx), len(idx)), cplx)
+        if unitary:
+            blk, _ = np.linalg.qr(blk)
+        else:
+            blk = blk + 0.7 * np.eye(len(idx))
+        out[np.ix_(idx, idx)] = blk
+    return out
 
 
 def build_data(spec, SI):
@@ -556,7 +565,7 @@ def build_data(spec, SI):
         out['vec'] = vec
         out['norm'] = 1.
     elif m in ('full', 'full_sparse'):
-        v, Q = sector_vector(rng, S, list(range(L)), k=b['k'] if m == 'full_sparse' else None, cplx=cplx)
+        v, Q = sector_vector(rng, S, list(range(L)), k=b['k'] if m == 'full_sparse' else None, cplx=cplx, Q=b.get('Q'))
         v = v * float(rng.uniform(0.5, 2.0))
         out['psi_in'] = v
         nrm = float(np.linalg.norm(v))
@@ -751,9 +760,13 @@ def build_data_infinite(spec, SI):
         nq = len(S.mod)
         ok = False
         for attempt in range(50):
-            # bond charges (bond L == bond 0), tensors masked to the charge rule
+            # bond charges; bond L = bond 0 shifted by the charge Q carried by one unit cell (from_Bflat gauges
+            # it into the total charge of the last tensor); tensors masked to the charge rule
             qb = [[tuple(S.valid(rng.integers(0, 2, size=nq))) for _ in range(chi[i])] for i in range(L)]
-            qb.append(qb[0])
+            Q = [0] * nq
+            for i in range(L):
+                Q = [x + y for x, y in zip(Q, S.q[i][int(rng.integers(S.dims[i]))])]
+            qb.append([tuple(S.valid([x + y for x, y in zip(a, Q)])) for a in qb[0]])
             Bs = []
             good = True
             for i in range(L):
@@ -770,7 +783,11 @@ def build_data_infinite(spec, SI):
             if not good:
                 continue
             tm = TM([np.transpose(B, (1, 0, 2)) for B in Bs])
-            if tm.gap < 0.8 and abs(tm.eta) > 1e-8:
+            c0 = chi[0]
+            sl = np.linalg.svd(tm.l0.reshape(c0, c0), compute_uv=False)
+            sr = np.linalg.svd(tm.r0.reshape(c0, c0), compute_uv=False)
+            # injective (unique dominant eigenvalue, full-rank fixed points) and well conditioned
+            if tm.gap < 0.8 and abs(tm.eta) > 1e-8 and sl[-1] > 1e-3 * sl[0] and sr[-1] > 1e-3 * sr[0]:
                 ok = True
                 break
         out['ok'] = ok
